@@ -124,14 +124,17 @@ Definition dtype_ok (deep : bool) (ev et : elem) : bool :=
   | _, _ => elem_beq ev et
   end.
 
-(* PropValue.check *)
+(* PropValue.check.  Pinned code: a Sequence value is a list whose elements' ANNOTATED types are _subtype of the element
+   type (the payloads are not looked at); an Optional value is None or any PropValue.  Repaired (deep): payloads are
+   checked against the declared element type.  NB _subtype is a compatibility test, not an order (Unknown <= Constant),
+   so the annotation test alone could never establish conformance. *)
 Fixpoint check (deep : bool) (t : ty) (v : pval) {struct v} : bool :=
   match t, v with
   | Tensor e sh, VArr e' s => shape_le s sh && dtype_ok deep e' e
   | Sequence t', VList l =>
-      forallb (fun p => match p with (te, ve) => subtype te t' && (if deep then check deep te ve else true) end) l
+      forallb (fun p => match p with (te, ve) => subtype te t' && (if deep then check deep t' ve else true) end) l
   | Optional t', VNothing => true
-  | Optional t', VSome te ve => if deep then subtype te t' && check deep te ve else true
+  | Optional t', VSome te ve => if deep then check deep t' ve else true
   | _, _ => false
   end.
 
